@@ -555,6 +555,12 @@ class TransferManager(BaseManager):
 
         # Downloads will just get remotely queued
         for download in downloads:
+            # A state transition (pause, abort, ...) is in progress and has
+            # already cancelled the tasks it knew about: don't start a new one
+            # behind its back. The transition will request a new cycle
+            if download._state_lock.locked():
+                continue
+
             # A previous attempt that is still running should not be replaced:
             # its handle would be lost and it could no longer be cancelled
             if download._remotely_queue_task is not None and not download._remotely_queue_task.done():
@@ -570,6 +576,9 @@ class TransferManager(BaseManager):
 
         # Uploads should be initialized and uploaded if possible
         for upload in uploads[:free_upload_slots]:
+            if upload._state_lock.locked():
+                continue
+
             if upload._transfer_task is not None and not upload._transfer_task.done():
                 continue
 
